@@ -792,6 +792,8 @@ def const_expr(c):
         return ("const_param", c["name"])
     if t == "fn":
         return ("fn", c["f"]["path"])
+    if t == "static_ref":
+        return ("static_ref", c["path"], int(c.get("offset", 0)))
     return ("const", c.get("s"), c.get("ty"))
 
 
